@@ -160,23 +160,27 @@ func NewScenario(tr *Tracer, prog Program) *Scenario {
 		sc.body(cbFromQuery(r.Query()), r.Group())
 		r.OK(nil)
 	}
-	s.Handle("r.$id", res.GetResource(handler), res.Call("m", call))
-	s.Handle("q.$id", res.GetResource(handler), res.Call("m", call), res.Group("grp.${id}"))
-	s.Handle("par.$id", res.GetResource(handler), res.Call("m", call), res.Parallel(true))
+	acc := res.Access(func(r res.AccessRequest) {
+		sc.body(cbFromQuery(r.Query()), r.Group())
+		r.AccessGranted()
+	})
+	s.Handle("r.$id", res.GetResource(handler), res.Call("m", call), acc)
+	s.Handle("q.$id", res.GetResource(handler), res.Call("m", call), acc, res.Group("grp.${id}"))
+	s.Handle("par.$id", res.GetResource(handler), res.Call("m", call), acc, res.Parallel(true))
 	// a second resource pattern whose literal group coincides with the ${id} group of test.q.b
-	s.Handle("s.$id", res.GetResource(handler), res.Call("m", call), res.Group("grp.b"))
+	s.Handle("s.$id", res.GetResource(handler), res.Call("m", call), acc, res.Group("grp.b"))
 	// a mounted route and a sibling placeholder pattern with a ${tag} group: names under "adm" that
 	// match nothing in the mount fall back to the placeholder pattern and share the group "ten.adm"
-	s.Route("adm", func(m *res.Mux) { m.Handle("settings", res.GetResource(handler), res.Call("m", call)) })
-	s.Handle("$tenant.$doc", res.GetResource(handler), res.Call("m", call), res.Group("ten.${tenant}"))
+	s.Route("adm", func(m *res.Mux) { m.Handle("settings", res.GetResource(handler), res.Call("m", call), acc) })
+	s.Handle("$tenant.$doc", res.GetResource(handler), res.Call("m", call), acc, res.Group("ten.${tenant}"))
 	sub := res.NewMux("sub")
-	sub.Handle("x.$id", res.GetResource(handler), res.Call("m", call), res.Group("deep.${id}"))
+	sub.Handle("x.$id", res.GetResource(handler), res.Call("m", call), acc, res.Group("deep.${id}"))
 	s.Mount("", sub)
 	// registered on the service after the mount, with a pattern that passes through the mount point:
 	// no Group option, so every resource is its own worker group
-	s.Handle("sub.late.$id", res.GetResource(handler), res.Call("m", call))
+	s.Handle("sub.late.$id", res.GetResource(handler), res.Call("m", call), acc)
 	// the resource whose name is the service name itself (handler on the mux root), default group
-	s.Handle("", res.GetResource(handler), res.Call("m", call))
+	s.Handle("", res.GetResource(handler), res.Call("m", call), acc)
 	sc.svc = s
 	return sc
 }
@@ -198,7 +202,7 @@ func (sc *Scenario) submit(cb string, sub Sub) {
 	if sub.Group == "g4" && len(cb)%2 == 0 {
 		rid = "test.adm.y" // enters the mounted "adm" mux, matches nothing there, falls back to $tenant.$doc
 	}
-	if sub.Group == "g6" && (sub.Kind == "get" || sub.Kind == "call") {
+	if sub.Group == "g6" && (sub.Kind == "get" || sub.Kind == "call" || sub.Kind == "access") {
 		sub.Kind = "with" // a wildcard subscription does not carry requests for the bare service name
 	}
 	if sub.Kind != "withgroup" && sub.Kind != "nomatch" {
@@ -235,10 +239,13 @@ func (sc *Scenario) submit(cb string, sub Sub) {
 		sc.svc.WithResource(r, func() { sc.body(cb, r.Group()) })
 	case "withgroup":
 		sc.svc.WithGroup(gid, func(*res.Service) { sc.body(cb, gid) })
-	case "get", "call":
+	case "get", "call", "access":
 		subj := "get." + rid
 		if sub.Kind == "call" {
 			subj = "call." + rid + ".m"
+		}
+		if sub.Kind == "access" {
+			subj = "access." + rid
 		}
 		if n, _ := sc.conn.Deliver(subj, "inbox."+cb, []byte(`{"query":"cb=`+cb+`"}`)); n > 0 {
 			sc.tr.Log("delivered", cb)
